@@ -204,6 +204,16 @@ func (v *FnVC) init(key string) string {
 			}
 		}
 	}
+	if t, ok := v.w.heapTypes[key]; ok && strings.HasPrefix(key, "ghost|") && isGhostMap(t) {
+		// ghost maps never mention objects that do not exist yet
+		et := t.Underlying().(*types.Map).Elem()
+		_, isPtr := et.Underlying().(*types.Pointer)
+		if b, ok := et.Underlying().(*types.Basic); isPtr || (ok && b.Kind() == types.UnsafePointer) {
+			v.ensureNextref()
+			v.init("nextref")
+			fmt.Fprintf(&v.body, "(assert (forall ((r! Int)) (! (< (select %s r!) |nextref@0|) :pattern ((select %s r!)))))\n", n, n)
+		}
+	}
 	if t, ok := v.w.heapTypes[key]; ok && strings.HasPrefix(key, "E|") {
 		if a := v.allocatedAt(Term{"(select (select " + n + " r!) j!)", t}, "|nextref@0|"); a != "true" {
 			v.ensureNextref()
@@ -218,7 +228,22 @@ func (v *FnVC) set(key, sort, term string) {
 	if bi := v.blocks[v.cur]; bi != nil {
 		bi.writes[key] = true
 	}
+	if strings.HasPrefix(sort, "(Array") && strings.HasPrefix(term, "(ite ") {
+		// conditional heap versions are constants (not macros) so that they can occur in quantifier patterns
+		v.st[key] = v.defineConst(key, sort, term)
+		return
+	}
 	v.st[key] = v.define(key, sort, term)
+}
+
+// defineConst introduces a fresh constant equal to term (a definition, asserted unconditionally).
+func (v *FnVC) defineConst(prefix, sort, term string) string {
+	if len(term) < 60 && !strings.ContainsAny(term, " ") {
+		return term
+	}
+	n := v.fresh(prefix)
+	fmt.Fprintf(&v.body, "(declare-const %s %s)\n(assert (= %s %s))\n", n, sort, n, term)
+	return n
 }
 
 func (v *FnVC) havoc(key string) string {
@@ -325,6 +350,12 @@ func (v *FnVC) oblige(kind, label, goal string, props []string, claimed bool, te
 	}
 	if v.behav != "" && !v.behavClause {
 		// already proved in the default behaviour under weaker assumptions
+		v.assumeQuiet(goal)
+		return
+	}
+	if !claimed {
+		// not claimed (partial-correctness contract): assumed and counted
+		v.safetyAssumed++
 		v.assumeQuiet(goal)
 		return
 	}
@@ -899,6 +930,7 @@ func (v *FnVC) translateAll() {
 			v.assume(t)
 		}
 	}
+	v.ghostSets("entry", v.initEnv)
 	for _, ri := range v.fc.ReplayInputs {
 		e, err := ParseExpr(ri[1])
 		if err != nil {
@@ -956,6 +988,19 @@ func (v *FnVC) allocatedAt(t Term, next string) string {
 		return fmt.Sprintf("(< %s %s)", t.S, next)
 	case *types.Slice:
 		return fmt.Sprintf("(< (sl_ref %s) %s)", t.S, next)
+	case *types.Struct:
+		// a struct value: every reference it holds
+		st := t.T.Underlying().(*types.Struct)
+		sort := v.sortOf(t.T)
+		var parts []string
+		for i := 0; i < st.NumFields(); i++ {
+			f := st.Field(i)
+			a := v.allocatedAt(Term{fmt.Sprintf("(%s %s)", fieldAcc(sort, f.Name(), i), t.S), f.Type()}, next)
+			if a != "true" {
+				parts = append(parts, a)
+			}
+		}
+		return and(parts...)
 	}
 	return "true"
 }
@@ -1052,7 +1097,11 @@ func (v *FnVC) enterBlock(b *ssa.BasicBlock) {
 		for i := len(vals) - 2; i >= 0; i-- {
 			term = fmt.Sprintf("(ite %s %s %s)", ins[i].edge, vals[i], term)
 		}
-		st[k] = v.define(k+".b"+strconv.Itoa(b.Index), v.heapSort(k), term)
+		if hs := v.heapSort(k); strings.HasPrefix(hs, "(Array") {
+			st[k] = v.defineConst(k+".b"+strconv.Itoa(b.Index), hs, term)
+		} else {
+			st[k] = v.define(k+".b"+strconv.Itoa(b.Index), hs, term)
+		}
 	}
 	v.st = st
 	// phis
@@ -1224,6 +1273,11 @@ func (v *FnVC) backEdge(from, to *ssa.BasicBlock, edge string) {
 	l := v.loops[to]
 	lab := v.loopLabel(l)
 	save := v.blocks[from].point
+	saveAssumes := append([]string{}, v.blocks[from].assumes...)
+	defer func() {
+		// what is established on the back edge must not leak to the other successors of the block
+		v.blocks[from].assumes = saveAssumes
+	}()
 	v.blocks[from].point = v.define("pt", "Bool", and(save, edge))
 	env := v.newEnvAt(v.st, v.blockPos(to))
 	env.loopEntry = l.entrySt
@@ -1408,4 +1462,28 @@ func storesThrough(fn *ssa.Function, fv *ssa.FreeVar) bool {
 		}
 	}
 	return false
+}
+
+// ghostSets executes the contract's ghost assignments anchored at `anchor`.
+func (v *FnVC) ghostSets(anchor string, env *Env) {
+	for _, gs := range v.fc.GhostSets {
+		if gs[0] != anchor {
+			continue
+		}
+		g, ok := v.w.cs.Ghosts[gs[1]]
+		if !ok {
+			panic(specError{"ghost-set: unknown ghost variable " + gs[1]})
+		}
+		e, err := ParseExpr(gs[2])
+		if err != nil {
+			panic(specError{"ghost-set: " + err.Error()})
+		}
+		if env == v.initEnv {
+			env = v.newEnv(v.st, v.initEnv)
+			env.entry = true
+		}
+		t := v.specTerm(e, env, nil)
+		key := v.w.ghostKey(g)
+		v.set(key, v.heapSort(key), t.S)
+	}
 }
